@@ -312,6 +312,29 @@ Fixpoint prune_n (k : nat) (es : list (node * node)) : list (node * node) :=
 Definition forest_b (G : dcop) : bool :=
   match prune_n (List.length (fg_edges G)) (fg_edges G) with [] => true | _ => false end.
 
+(* the same notion by unrolling -- the form the exactness theorems use (P_MaxSum4/5: [others], [SN], [low],
+   [forest_ok_b] are these functions; the evaluation order here is lazy so that cyclic graphs are rejected
+   quickly): [unroll G h a b] = the computations met behind the directed edge a->b up to depth h,
+   [u_closed] = nothing is left to explore, [forest_height_ok G H] = seen from every variable the unrolling to
+   depth H+1 is closed and repetition-free, i.e. the factor graph is a forest of height <= H *)
+Definition u_others (G : dcop) (a b : node) : list node := filter (fun c => negb (Z.eqb c b)) (nbrs G a).
+Fixpoint unroll (G : dcop) (h : nat) (a b : node) : list node :=
+  match h with O => [] | S h' => a :: flat_map (fun c => unroll G h' c a) (u_others G a b) end.
+Fixpoint lazy_forallb {A} (p : A -> bool) (l : list A) : bool :=
+  match l with [] => true | x :: r => if p x then lazy_forallb p r else false end.
+Fixpoint u_closed (G : dcop) (h : nat) (a b : node) : bool :=
+  match h with
+  | O => false
+  | S h' => lazy_forallb (fun c => u_closed G h' c a) (u_others G a b)
+  end.
+Definition forest_height_ok (G : dcop) (H : nat) : bool :=
+  lazy_forallb (fun x => if u_closed G (S H) x x then nodupb Z.eqb (unroll G (S H) x x) else false) (var_ids G).
+(* distinct computation names, scopes without repetition over declared variables (what load_dcop guarantees) *)
+Definition wf_b (G : dcop) : bool :=
+  nodupb Z.eqb (all_nodes G) &&
+  forallb (fun gf => nodupb Z.eqb (f_scope (snd gf)) && forallb (fun y => zmem y (var_ids G)) (f_scope (snd gf)))
+          (d_facs G).
+
 (* every computation runs and no message is in flight *)
 Definition quiescent {St Msg} (G : dcop) (cf : config St Msg) : bool :=
   forallb (fun n => w_running (nodes cf n)) (all_nodes G)
@@ -361,7 +384,8 @@ Record case := mkCase {
   c_sels : list (node * list (Z * option Q));            (* per variable: value_selection calls *)
   c_final : list (node * Z);                             (* maxsum: final current_cycle *)
   c_inflight : list (node * node * Z);                   (* non-empty channels at the end: length *)
-  c_nodes : list node
+  c_nodes : list node;
+  c_height : Z                                           (* height of the forest computed by the harness; -1 = the factor graph has a cycle *)
 }.
 
 Definition case_dcop (c : case) : dcop :=
@@ -413,5 +437,14 @@ Definition check_async_parts (c : case) : list bool :=
     forallb (fun ns => list_eqb2 sel_eqb (n_sel (w_st (nodes cf (fst ns)))) (snd ns)) (c_sels c);
     inflight_ok c (fun s d => List.length (chan cf s d)) ].
 
+(* the harness's independent notion of "forest of height H" agrees with the hypotheses of the theorems *)
+Definition check_graph (c : case) : bool :=
+  let G := case_dcop c in
+  wf_b G &&
+  (if Z.ltb (c_height c) 0
+   then negb (forest_b G) && negb (forest_height_ok G (List.length (all_nodes G)))
+   else forest_b G && forest_height_ok G (Z.to_nat (c_height c)) &&
+        (Z.eqb (c_height c) 0 || negb (forest_height_ok G (Z.to_nat (c_height c - 1))))).
+
 Definition check_case (c : case) : bool :=
-  forallb (fun b => b) (if c_sync c then check_sync_parts c else check_async_parts c).
+  check_graph c && forallb (fun b => b) (if c_sync c then check_sync_parts c else check_async_parts c).
